@@ -37,6 +37,13 @@ NODE = 2
 
 
 def payload(n, salt):
+    if salt % 4 == 1:
+        # mostly zero bytes (whole segments of zeros after non-zero data): an erased / sparse domain
+        return bytes((((i * 31 + salt) % 255) + 1) if i % 23 == salt % 23 else 0 for i in range(n))
+    if salt % 4 == 3 and n > 9:
+        # one zero segment in otherwise dense data
+        z = 7 * ((salt // 4) % max(1, n // 7))
+        return bytes(0 if z <= i < z + 7 else ((i * 31 + salt * 7 + (i >> 8)) % 255) + 1 for i in range(n))
     return bytes(((i * 31 + salt * 7 + (i >> 8)) % 255) + 1 for i in range(n))
 
 
@@ -70,6 +77,34 @@ def run_case(case) -> Outcome:
     for _ in range(case.get("readd", 0)):
         net.add_node(node)          # the same node object registered again: still one SDO response per frame
     node.sdo.RESPONSE_TIMEOUT = 0.01
+    if case.get("pre_fail"):
+        # an earlier block download through the same client that fails half-way (the server loses
+        # every segment from the k-th on and finally nothing comes back); nothing of it may leak into
+        # the transfer under test
+        pk = case["pre_fail"]
+        seen = {"n": 0}
+
+        def pre_flt(fr, h):
+            # the server's answers get lost from the pk-th on (pk = 1: already the first acknowledge
+            # after the initiate response): the client times out, aborts and gives the transfer up
+            if fr.can_id == srv.tx_id:
+                seen["n"] += 1
+                if seen["n"] > pk:
+                    return []
+            return [fr]
+        hub.filter = pre_flt
+        try:
+            with node.sdo.open(0x2FFF, 1, "wb", size=2000, block_transfer=True, buffering=0,
+                               request_crc_support=True) as fp0:
+                _raw_write(fp0, bytes([0xEE]) * 2000, [])
+        except Exception:
+            pass
+        hub.filter = None
+        srv._reset()
+        srv.errors.clear()
+        srv.commits[:] = []
+        srv.client_aborts[:] = []
+        srv._blk_i = 0
     counter = {"seg": 0, "dropped": 0}
 
     def flt(fr, h):
@@ -192,6 +227,9 @@ def enum_undisturbed():
                 route = [(0, []), (0, [7] * 3 + [13, 1, 20]), (1024, []), (7, [7, 14, 7]), (700, [700, 70])][i % 5]
                 yield {"len": n, "salt": i % 13, "blksizes": blks, "crc_req": crc_req, "crc_srv": crc_srv,
                        "buffering": route[0], "chunks": route[1], "readd": (0, 0, 0, 1, 0, 2, 0)[i % 7]}
+                if i % 9 == 0:
+                    yield {"len": n, "salt": i % 13, "blksizes": blks, "crc_req": crc_req, "crc_srv": crc_srv,
+                           "buffering": route[0], "chunks": route[1], "pre_fail": 1 + i % 3}
 
 
 def enum_single_loss():
@@ -228,6 +266,8 @@ def rand_case(draw, max_len):
                     chunks=[7 * k for k in draw(st.lists(st.integers(1, 30), min_size=1, max_size=8))])
     if draw(st.integers(0, 5)) == 0:
         case["readd"] = draw(st.integers(1, 2))
+    if draw(st.integers(0, 5)) == 0:
+        case["pre_fail"] = draw(st.integers(1, 3))
     lossmode = draw(st.sampled_from(["none", "none", "one", "one", "multi"]))
     if lossmode == "one":
         case["loss"] = [draw(st.integers(0, max(0, nsegs - 1)))]
